@@ -126,6 +126,11 @@ class IdlArg(Spec):
 
 
 def _cases_ok(case):
+    if case.get("kwargs") == "means":
+        # the internal path is exercised on well-formed name lists only (its callers pass those)
+        return case["names"] in ("one", "two-unsorted") and int(case["samples"]) == len(NAMES[case["names"]]) and \
+            case["idl"] in ("[range]", "[list]", "[range;list]", "[list;range]") and \
+            (case["idl"].count(";") + 1) == len(NAMES[case["names"]])
     nn = len(NAMES[case["names"]])
     ns = int(case["samples"])
     idl = case["idl"]
@@ -141,6 +146,18 @@ def _cases_ok(case):
 
 
 # ---- the property's rejection conditions ---------------------------------------------------------------------
+
+def _means(a):
+    """the list passed as means= (None on the validated path)"""
+    kw = getattr(a, "kwargs", None) if "kwargs" in a.__dict__ else None
+    if kw is None:
+        return None
+    d = kw.d if isinstance(kw, CDict) else kw
+    m = d.get("means")
+    if m is None:
+        return None
+    return list(m.items) if isinstance(m, CList) else list(m)
+
 
 def _is_str_list(names):
     return all(isinstance(n, str) for n in names)
@@ -167,6 +184,9 @@ def _value_error(a):
     names = _plain(a.names)
     samples = _idl_items(a.samples)
     idl = _idl_items(a.idl)
+    if _means(a) is not None:
+        # internal construction path (means=...): no validation of names / lengths; only the idl normalisation rejects
+        return Or(*[_unsorted_or_dup(x) for x in idl]) if idl is not None else False
     conds = [len(samples) != len(names)]
     if idl is not None:
         conds.append(len(idl) != len(names))
@@ -189,7 +209,7 @@ def _paired(names, samples, idl):
 def _type_error(a):
     names = _plain(a.names)
     idl = _idl_items(a.idl)
-    conds = [not _is_str_list(names)]
+    conds = [not _is_str_list(names)] if _means(a) is None else []
     if idl is not None:
         conds.append(any(isinstance(x, str) for x in idl))
     return Or(*conds)
@@ -213,23 +233,34 @@ def _init_post(a, r):
         given = idl[i] if idl is not None else None
         oi = chain(o, cn, "idl")
         n = Len(s)
-        out["len.%s" % cn] = And(Len(oi) == n, chain(o, cn, "shape") == n, Len(chain(o, cn, "deltas")) == n)
+        if _means(a) is not None:
+            # shape is taken from the configuration list; nothing checks it against the number of samples on this path
+            out["len.%s" % cn] = And(chain(o, cn, "shape") == Len(oi), Len(chain(o, cn, "deltas")) == n)
+        else:
+            out["len.%s" % cn] = And(Len(oi) == n, chain(o, cn, "shape") == n, Len(chain(o, cn, "deltas")) == n)
         if given is None:
             out["idl.%s" % cn] = And(is_range(oi), ForAll(0, n, lambda k, oi=oi: At(oi, k) == k + 1))
         else:
-            out["idl.%s" % cn] = ForAll(0, n, lambda k, oi=oi, given=given: At(oi, k) == At(given, k))
+            out["idl.%s" % cn] = And(Len(oi) == Len(given), ForAll(0, Len(given), lambda k, oi=oi, given=given: At(oi, k) == At(given, k)))
             if is_range(given):
                 out["kind.%s" % cn] = is_range(oi)
             else:
-                spaced = And(n >= 2, ForAll(0, n - 1, lambda k, given=given: At(given, k + 1) - At(given, k) == At(given, 1) - At(given, 0)))
+                ng = Len(given)
+                spaced = And(ng >= 2, ForAll(0, ng - 1, lambda k, given=given: At(given, k + 1) - At(given, k) == At(given, 1) - At(given, 0)))
                 out["kind.%s" % cn] = Iff(is_range(oi), spaced) if not isinstance(is_range(oi), bool) else (spaced if is_range(oi) else Not(spaced))
-        mean = seq_sum(s) / n
-        out["r_value.%s" % cn] = eq(chain(o, cn, "r_values"), mean)
-        out["deltas.%s" % cn] = ForAll(0, n, lambda k, cn=cn, s=s, mean=mean: eq(At(chain(o, cn, "deltas"), k), At(s, k) - mean))
-        total = total + n
+        means = _means(a)
+        if means is not None:
+            mean = means[i]
+            out["r_value.%s" % cn] = eq(chain(o, cn, "r_values"), mean)
+            out["deltas.%s" % cn] = ForAll(0, n, lambda k, cn=cn, s=s: eq(At(chain(o, cn, "deltas"), k), At(s, k)))
+        else:
+            mean = seq_sum(s) / n
+            out["r_value.%s" % cn] = eq(chain(o, cn, "r_values"), mean)
+            out["deltas.%s" % cn] = ForAll(0, n, lambda k, cn=cn, s=s, mean=mean: eq(At(chain(o, cn, "deltas"), k), At(s, k) - mean))
+        total = total + (Len(oi) if means is not None else n)
         vsum = vsum + n * mean
     out["N"] = A(o, "N") == total
-    out["value"] = eq(value_of(o), vsum / total)
+    out["value"] = eq(value_of(o), vsum / total) if _means(a) is None else eq(value_of(o), 0)
     out["flags"] = And(A(o, "reweighted") is False or Not(A(o, "reweighted")) if isinstance(A(o, "reweighted"), Sym) else A(o, "reweighted") is False,
                        A(o, "tag") is None)
     return out
@@ -238,7 +269,10 @@ def _init_post(a, r):
 def _native_init(args):
     from pyvc.native import repo_module
     pe = repo_module("pyerrors.obs")
-    return pe.Obs(args["samples"], args["names"], idl=args["idl"])
+    kw = dict(args.get("kwargs") or {})
+    if "means" in kw:
+        kw["means"] = kw["means"][:len(args["names"])]
+    return pe.Obs(args["samples"], args["names"], idl=args["idl"], **kw)
 
 
 def _is_range_from_list(node):
@@ -282,18 +316,26 @@ def _init_result(a, ctx):
         elif is_range(given):
             attrs["idl"].d[cn] = given
         else:
-            spaced = And(n >= 2, ForAll(0, n - 1, lambda k, given=given: At(given, k + 1) - At(given, k) == At(given, 1) - At(given, 0)))
+            ng = Len(given)
+            spaced = And(ng >= 2, ForAll(0, ng - 1, lambda k, given=given: At(given, k + 1) - At(given, k) == At(given, 1) - At(given, 0)))
             if isinstance(spaced, bool):
                 isr = spaced
             else:
                 isr = ctx.branch(tb(spaced))
             if isr:
-                r = sym_range("newidl", At(given, 0), At(given, 1) - At(given, 0), n)
+                r = sym_range("newidl", At(given, 0), At(given, 1) - At(given, 0), ng)
                 for ax in range_axioms(r):
                     ctx.assume(wrap(ax))
                 attrs["idl"].d[cn] = r
             else:
                 attrs["idl"].d[cn] = given if isinstance(given, (SSeq, CList)) else given
+        means = _means(a)
+        if means is not None:
+            attrs["shape"].d[cn] = Len(attrs["idl"].d[cn])
+            attrs["deltas"].d[cn] = s          # the very object that was passed
+            attrs["r_values"].d[cn] = means[i]
+            total = total + Len(attrs["idl"].d[cn])
+            continue
         attrs["shape"].d[cn] = n
         d = SSeq.fresh("newdeltas." + cn, "ndarray", "real")
         d.length = n
@@ -301,7 +343,7 @@ def _init_result(a, ctx):
         attrs["r_values"].d[cn] = SReal(z3.Real(fresh("newr." + cn)))
         total = total + n
     attrs["N"] = total
-    attrs["_value"] = SReal(z3.Real(fresh("newvalue")))
+    attrs["_value"] = SReal(z3.Real(fresh("newvalue"))) if _means(a) is None else 0
     o.attrs.update(attrs)
     return o
 
@@ -309,7 +351,10 @@ def _init_result(a, ctx):
 contract(
     REL + "::Obs.__init__", props=["C04"],
     params=dict(self=Custom(lambda n, c, s: SObj("Obs", {}), native=lambda v, ev: None, random=lambda rng, s: None),
-                samples=SamplesSpec(), names=NamesSpec(), idl=IdlArg()),
+                samples=SamplesSpec(), names=NamesSpec(), idl=IdlArg(),
+                kwargs=OneOf(validated=Custom(lambda n, c, s: CDict(), native=lambda v, ev: {}),
+                             means=Custom(lambda n, c, s: CDict({"means": CList([SReal(z3.Real(fresh("mean0"))), SReal(z3.Real(fresh("mean1")))], "list")}),
+                                          native=lambda v, ev: {"means": [float(ev(x)) for x in v.d["means"].items]}))),
     cases_filter=_cases_ok,
     writes=("self",),
     raises=[("ValueError", _value_error), ("TypeError", _type_error)],
@@ -332,7 +377,7 @@ def _init_gen(rng, case):
     idlv = case["idl"]
     if idlv == "none":
         samples = SamplesList(ns).random(rng)
-        return dict(self=None, samples=samples, names=names, idl=None)
+        return dict(self=None, samples=samples, names=names, idl=None, kwargs={})
     kinds = idlv.strip("[]").split(";")
     idl = []
     for k in kinds:
@@ -342,4 +387,5 @@ def _init_gen(rng, case):
         ref = idl[j] if j < len(idl) and not isinstance(idl[j], str) else [0] * 5
         n = len(ref) if rng.random() < 0.85 else len(ref) + 1
         samples.append(G.reals(rng, n))
-    return dict(self=None, samples=samples, names=names, idl=idl)
+    kw = {"means": [rng.uniform(-1, 1), rng.uniform(-1, 1)]} if case.get("kwargs") == "means" else {}
+    return dict(self=None, samples=samples, names=names, idl=idl, kwargs=kw)
